@@ -4,6 +4,7 @@ package main
 // interface methods, externs), built-in models, and conservative havoc.
 
 import (
+	"sort"
 	"fmt"
 	"os"
 	"go/token"
@@ -417,7 +418,7 @@ func (fv *FuncVer) callbackCall(st *State, ins ssa.Instruction, name string, sig
 				label = fmt.Sprintf("#%d", n)
 			}
 			g := fv.evalBool(env, cl.Expr)
-			fv.oblige(st, "callback:"+p.Name()+"/requires["+label+"]", fv.callSiteAnchor(ins, p.Name()), ins.Pos(), g, "at every call of "+p.Name()+": "+cl.Text)
+			fv.oblige(st, "callback:"+p.Name()+"/requires["+label+"]", "", ins.Pos(), g, "at every call of "+p.Name()+": "+cl.Text)
 			st.assume(g)
 		}
 		for i, t := range rts {
@@ -478,9 +479,19 @@ func (fv *FuncVer) recordEventT(st *State, name string, args, res []*Term, ins s
 
 // havocAll forgets everything about the heap, maps and globals (not local cells).
 func (fv *FuncVer) havocAll(st *State, why string) {
+	var hvd []string
 	for k := range st.heaps {
 		st.heaps[k] = fv.ctx.Fresh("hv_"+k, st.heaps[k].Sort)
+		hvd = append(hvd, k)
 	}
+	sort.Strings(hvd)
+	defer func() {
+		for _, k := range hvd {
+			if ax := fv.heapWF(k, st.heaps[k], st.nextRef); ax != nil {
+				st.assume(ax)
+			}
+		}
+	}()
 	for k := range st.globals {
 		if strings.HasPrefix(k, "iter:") || strings.HasPrefix(k, "gl:") {
 			continue
@@ -503,6 +514,7 @@ func (fv *FuncVer) havocAll(st *State, why string) {
 }
 
 func (fv *FuncVer) havocKeys(st *State, keys []string) {
+	var hvd []string // element / object stores replaced by fresh ones
 	for _, k := range keys {
 		if k == "*" {
 			fv.havocAll(st, "assigns *")
@@ -532,6 +544,7 @@ func (fv *FuncVer) havocKeys(st *State, keys []string) {
 				st.globals[name] = fv.ctx.Fresh("gv_"+name, st.globals[name].Sort)
 			}
 		default:
+			hvd = append(hvd, k)
 			if cur, ok := st.heaps[k]; ok {
 				st.heaps[k] = fv.ctx.Fresh("hv_"+k, cur.Sort)
 			} else {
@@ -550,6 +563,11 @@ func (fv *FuncVer) havocKeys(st *State, keys []string) {
 		nr.Sym.Lower = st.nextRef
 	}
 	st.nextRef = nr
+	for _, k := range hvd {
+		if ax := fv.heapWF(k, st.heaps[k], st.nextRef); ax != nil {
+			st.assume(ax)
+		}
+	}
 }
 
 // ---------------------------------------------------------------------------
@@ -595,7 +613,10 @@ func (fv *FuncVer) applyContract(st *State, ins ssa.Instruction, blk *Block, ful
 			}
 		}
 	}
-	site := fv.callSiteAnchor(ins, short)
+	// all call sites of one callee share one obligation per clause: renaming an argument, or
+	// adding a call site, must not create a fresh (unlisted) obligation next to a vanished one
+	site := ""
+	_ = fv.callSiteAnchor
 	trusted := false
 	if tc, ok := fv.block.Flags["trustcalls"]; ok && len(st.frames) == 1 {
 		for _, n := range strings.Fields(strings.ReplaceAll(tc, ",", " ")) {
